@@ -10,7 +10,9 @@ package main
 import (
 	"context"
 	"fmt"
+	"net/http"
 	"strconv"
+	"strings"
 	"sync"
 	"sync/atomic"
 	"time"
@@ -19,7 +21,10 @@ import (
 	grpcscen "github.com/yandex/pandora/components/guns/grpc/scenario"
 	httpscen "github.com/yandex/pandora/components/guns/http_scenario"
 	"github.com/yandex/pandora/components/providers/base"
+	httppost "github.com/yandex/pandora/components/providers/scenario/http/postprocessor"
+	httppre "github.com/yandex/pandora/components/providers/scenario/http/preprocessor"
 	httptempl "github.com/yandex/pandora/components/providers/scenario/http/templater"
+	scenimport "github.com/yandex/pandora/components/providers/scenario/import"
 	scentempl "github.com/yandex/pandora/components/providers/scenario/templater"
 	"github.com/yandex/pandora/core"
 	"github.com/yandex/pandora/core/aggregator/netsample"
@@ -32,7 +37,7 @@ import (
 )
 
 var hammerObjs = []string{"mpnext", "mprand", "mpboth", "strrand", "tmplfuncs", "tmplhttp", "tmplhtml", "tmplgrpc", "clientpool",
-	"nextid", "samplepool", "dnscache", "schedonce", "schedline", "schedunlim", "schedcomp"}
+	"nextid", "samplepool", "dnscache", "schedonce", "schedline", "schedunlim", "schedcomp", "posthdr", "postbody", "preproc"}
 
 // hammerBody returns the operation goroutine g performs at its i-th call (the shared object is created once, here).
 func hammerBody(obj string) (body func(g, i int) error, cleanup func()) {
@@ -152,6 +157,69 @@ func hammerBody1(obj string, cleanup *func()) func(g, i int) error {
 			}
 			if finished.Load() > 1 {
 				return fmt.Errorf("finish callback ran %d times", finished.Load())
+			}
+			return nil
+		}
+	case "posthdr":
+		// ONE var/header postprocessor (part of the scenario definition: every instance calls it for its own responses);
+		// the header it reads differs in length from response to response
+		pp := scenimport.NewVarHeaderPostprocessor(httppost.Config{Mapping: headerMapping()})
+		return func(g, i int) error {
+			resp := &http.Response{StatusCode: 200, Header: http.Header{"X-Tok": {tokAlphabet[:1+(g*7+i*3)%15]}, "Content-Type": {"application/json"}}}
+			vars, err := pp.Process(resp, nil)
+			if err != nil {
+				return err
+			}
+			if tb, _ := vars["tb"].(string); tb != resp.Header.Get("X-Tok") {
+				return fmt.Errorf("substr(-20,40) of %q gave %q", resp.Header.Get("X-Tok"), tb)
+			}
+			return nil
+		}
+	case "postbody":
+		// the postprocessors that read the body, one object each for all goroutines
+		pj := scenimport.NewVarJsonpathPostprocessor(httppost.Config{Mapping: map[string]string{"token": "$.auth_key", "first": "$.items[0]"}})
+		px := scenimport.NewVarXpathPostprocessor(httppost.Config{Mapping: map[string]string{"title": "//title", "links": "//a/@href"}})
+		pa, err := scenimport.NewAssertResponsePostprocessor(httppost.AssertResponse{Headers: map[string]string{"Content-Type": "json"}, Body: []string{"auth_key"},
+			StatusCode: 200, Size: &httppost.AssertSize{Val: 5, Op: ">"}})
+		if err != nil {
+			return func(g, i int) error { return err }
+		}
+		return func(g, i int) error {
+			resp := &http.Response{StatusCode: 200, Header: http.Header{"Content-Type": {"application/json"}}}
+			key := "k" + strconv.Itoa(g) + "x" + strconv.Itoa(i%5)
+			js := `{"auth_key":"` + key + `","items":[` + strconv.Itoa(g) + `,2,3]}`
+			vars, err := pj.Process(resp, strings.NewReader(js))
+			if err != nil {
+				return err
+			}
+			if vars["token"] != key {
+				return fmt.Errorf("jsonpath gave %v, want %s", vars["token"], key)
+			}
+			if _, err := pa.Process(resp, strings.NewReader(js)); err != nil {
+				return err
+			}
+			vars, err = px.Process(resp, strings.NewReader("<html><head><title>"+key+"</title></head><body><a href=\"/1\">a</a><a href=\"/2\">b</a></body></html>"))
+			if err != nil {
+				return err
+			}
+			if vars["title"] != key {
+				return fmt.Errorf("xpath gave %v, want %s", vars["title"], key)
+			}
+			return nil
+		}
+	case "preproc":
+		// ONE http preprocessor with `[next]` / `[rand]` paths and a template function, as all instances of a scenario use it
+		pre := &httppre.Preprocessor{Mapping: map[string]string{"u": "source.users[next]", "r": "source.users[rand]", "n": "randInt(1,9)", "c": "source.global.g"}}
+		pre.InitIterator(mp.NewNextIterator(1))
+		users := []map[string]any{{"login": "a"}, {"login": "b"}, {"login": "c"}}
+		src := map[string]any{"users": users, "global": map[string]any{"g": "gg"}}
+		return func(g, i int) error {
+			vars, err := pre.Process(map[string]any{"source": src})
+			if err != nil {
+				return err
+			}
+			if vars["c"] != "gg" {
+				return fmt.Errorf("preprocessor gave %v for a constant", vars["c"])
 			}
 			return nil
 		}
